@@ -322,3 +322,6 @@ V("C17", "eig_precheck_ignores_busted", "violation", (EIG, "        if system.TD
 V("C17", "eig_precheck_test_ok_before_init", "violation", (EIG, "        if system.TDS.test_ok is False:\n            logger.error('Initialization of dynamic models failed. Eig analysis will not continue.')\n            status = False\n", ""), (EIG, "        if system.TDS.initialized is False:\n            system.TDS.init()", "        if system.TDS.test_ok is False:\n            return False\n        if system.TDS.initialized is False:\n            system.TDS.init()"), rule="C17.gate")
 V("C17", "benign_eig_precheck_flags_one_test", "silent", (EIG, "        if system.TDS.test_ok is False:\n            logger.error('Initialization of dynamic models failed. Eig analysis will not continue.')\n            status = False\n\n        if system.TDS.busted:\n", "        if system.TDS.test_ok is False or system.TDS.busted:\n"))
 V("C17", "benign_tds_run_gates_merged", "silent", (TDS, "        if self.busted:\n            logger.error('Simulation was terminated by an error at t=%.4f s and cannot be continued.', system.dae.t)\n            system.exit_code += 1\n            return succeed\n", "        if self.busted is True:\n            logger.error('Simulation was terminated by an error and cannot be continued.')\n            system.exit_code += 1\n            return False\n"))
+V("C16", "daeint_linsolve_switch_inverted", "violation", (DAEINT, "            if not tds.config.linsolve:", "            if tds.config.linsolve:"), rule="C16.facade")
+V("C16", "benign_daeint_linsolve_positive_form", "silent", (DAEINT, "            if not tds.config.linsolve:\n                inc = tds.solver.solve(tds.Ac, matrix(tds.qg))\n            else:\n                inc = tds.solver.linsolve(tds.Ac, matrix(tds.qg))\n", "            if tds.config.linsolve:\n                inc = tds.solver.linsolve(tds.Ac, matrix(tds.qg))\n            else:\n                inc = tds.solver.solve(tds.Ac, matrix(tds.qg))\n"))
+V("C16", "benign_ccs_unpacked", "silent", (SC, "    ccs = A.CCS\n    size = A.size\n    data = np.array(ccs[2]).ravel()\n    indices = np.array(ccs[1]).ravel()\n    indptr = np.array(ccs[0]).ravel()\n", "    indptr, indices, data = [np.array(x).ravel() for x in A.CCS]\n    size = A.size\n"))
